@@ -5,7 +5,7 @@ cd "$(dirname "$0")"
 export CARGO_NET_OFFLINE=true RUST_BACKTRACE=0
 [ -f harness/Cargo.lock ] || cp /repo/Cargo.lock harness/Cargo.lock
 (cd harness && cargo build --release --offline --quiet)
-python3 tools/coqbuild all
+python3 tools/coqbuild all || echo "WARNING: some Coq files did not build (each check rebuilds what it needs)"
 (cd /repo && cargo build --release --example dlint --offline --quiet --target-dir /verif/work/target-dlint)
-(cd ocaml && make -s -j4)
+(cd ocaml && make -s -k -j4) || echo "WARNING: some model drivers did not build"
 echo setup done
